@@ -222,7 +222,7 @@ impl RegistryCore {
 
                 // Add registry common labels, if any.
                 if let Some(ref hmap) = self.labels {
-                    let pairs: Vec<proto::LabelPair> = hmap
+                    let mut pairs: Vec<proto::LabelPair> = hmap
                         .iter()
                         .map(|(k, v)| {
                             let mut label = proto::LabelPair::default();
@@ -231,6 +231,8 @@ impl RegistryCore {
                             label
                         })
                         .collect();
+                    // Do not leak the map's iteration order into the output.
+                    pairs.sort();
 
                     for metric in m.mut_metric().iter_mut() {
                         let mut labels: Vec<_> = metric.take_label();
